@@ -75,6 +75,23 @@ class InitFlow:
                 fl = fields_of(r)
                 if fl:
                     self._alias[(rec, fname)] = fl[0]
+        # arrays created by init_<rec> and handed to the constructor (TGswSample: all_sample = new_TLweSample_array(...))
+        ini = v.fn("init_" + rec, required=False)
+        if ini is not None:
+            p2f = {}
+            for x in flat(eff):
+                if x["e"] == "store" and x["op"] == "=" and x["lv"][0] == "fld" and x["lv"][1] == this0 and x["val"][0] == "sym":
+                    p2f.setdefault(x["val"][1], x["lv"][2])
+            ieff, _, _ = run_function(v, ini, hooks=Hooks())
+            for x in flat(ieff):
+                if x["e"] == "call" and x["name"].startswith(rec + "::"):
+                    for k, a in enumerate(x["args"]):
+                        if a is not None and a[0] == "obj" and k < len(ctors[0].params):
+                            m = re.match(r"^new_(\w+?)(_array)?$", str(a[1]))
+                            fname = p2f.get(ctors[0].params[k]["n"])
+                            if m and m.group(1) in v.records and fname:
+                                for q in self.uninit_paths(m.group(1), depth + 1):
+                                    out.add((fname,) + q)
         self.uninit[rec] = out
         return out
 
